@@ -9,6 +9,7 @@ from fractions import Fraction
 import numpy as np
 
 from .common import Run, frac_s, guarded, list_s, opt_s, run_driver
+from .c04_args import args_stream
 
 META = {
     "claimed": True,
@@ -27,17 +28,44 @@ META = {
     "at every indexing entry point on non-square tilings, held results re-checked after later calls (aliasing, "
     "staleness, input mutation), every ordered pair of numpy numeric dtypes across blocks (np.result_type value oracle), "
     "blocks behind a lazily loading Mapping with a transient fault at every access, and two threads extracting from one "
-    "assembler at every forced interleaving point.",
+    "assembler at every forced interleaving point.  Argument glue (Model/Props C04Args): BlockAssembler.__init__ / "
+    "_verify_shape succeed exactly when every block has shape lead+[chy[iy],chx[ix]]+trail (the well-formedness "
+    "assemble_window presupposes; end-to-end theorem from the constructor to the mosaic), which error the first refused "
+    "block raises, the final assert fires exactly when an int32 chunk sum wraps; every accepted index spelling (tuple, "
+    "Index2d, XY, iyx_/ixy_) at [] / tile_shape / locate / GeoboxTiles[] / chunk_shape / pix_bbox is the tuple (r, c) "
+    "with no axis swap, refused forms never yield a tile, longer tuples are truncated by [] but refused by tile_shape; "
+    "shape_ / roi_tiles / GeoboxTiles.__init__ hand the core the tiling it assumes (regular: base = GeoBox shape; chunk "
+    "form ignores the shape); planes_yx(yx_roi) stays one-to-one; w_[roi] has the extent roi_shape reports — tied by "
+    "exhaustive small domains (layouts x per-block perturbations of up to two blocks, every argument form at every "
+    "entry point on non-square tilings).  Dtype / fill glue (Model/Props C04Dtype): BlockAssembler's dtype (float32 without "
+    "blocks, else numpy's promotion of all block dtypes) holds every block's values, and so does the dtype extract() "
+    "allocates whatever the fill (pasting never needs an unsafe cast); a fill of a higher kind (NaN into integer tiles, -1 "
+    "into unsigned ones) upgrades the result so that it is held, a same-kind fill never changes the dtype, an integer fill "
+    "that does not fit is refused (OverflowError) instead of wrapped, the default fill is NaN exactly for floating results; "
+    "numpy's own rules (result_type of any number of dtypes, can_cast safe, min_scalar_type, np.full's range check) are "
+    "reference semantics validated exhaustively against the installed numpy on every run (all 1-3 dtype combinations, all "
+    "pairs, every range edge).  Numpy integer scalars of every width as tile / pixel / window index at every indexing entry "
+    "point must be refused or give the Python-int answer (index * tile size, index + 1 and offsets beyond the dtype's "
+    "range).",
     "note": "Trusted: Lean kernel + {propext, Classical.choice, Quot.sound}; Spec/NpArray (numpy searchsorted, "
     "int indexing, tuple slicing, copyto of equal-length slices) validated against numpy each run; numpy "
-    "casting / dtype promotion not modelled; int32 offsets: theorems assume sum(chunks) < 2^31 (wrap is modelled "
+    "dtype promotion is modelled as reference semantics (Model/C04Dtype: resultTypeL, safeCast, minScalar*, fullRaises), the "
+    "casts of the cell VALUES themselves (np.copyto casting='same_kind') stay numpy's; int32 offsets: theorems assume sum(chunks) < 2^31 (wrap is modelled "
     "and compared); "
     "modelled since the growth round: BlockAssembler._norm_roi (padding of short windows, which axes an int squeezes, "
     "IndexError) and extract for any window spelling (extractND); clip_tiles as a function of the selected SET; zero-size "
-    "members; planes_yx one-to-one.  NOT mirrored in Lean (oracle / correspondence only, or out of scope): "
-    "BlockAssembler._verify_shape and _find_common_type (dtype promotion, numpy), casting / default fill by dtype, "
-    "planes_yx(yx_roi) variant; norm_slice_2d's Index2d / XY branch (iyx_) and numpy-int indices; roi_tiles dispatch, "
-    "WindowFromSlice; GeoBox.compute_crop branches other than a pair of slices / ints (Geometry, BoundingBox, GeoBox, "
+    "members; planes_yx one-to-one; since the args increment (Model/C04Args.lean): BlockAssembler.__init__ / _verify_shape "
+    "(blocks as (key, shape) list; dtype only as the 'float32 iff no blocks' flag), iyx_ / ixy_ / norm_slice_2d and every "
+    "index argument form (TypeError / AttributeError via a local error extension), shape_ / Tiles.__init__ / roi_tiles / "
+    "GeoboxTiles.__init__ dispatch, planes_yx(yx_roi), WindowFromSlice, roi_shape; modelled domain of the glue: Python "
+    "ints, tuple members int or step-less slice, axis >= 0, chunk entries in int32 range, `how` a shape spelling or a "
+    "sequence of int sequences.  Observed, not a claim: GeoboxTiles(gbox, chunks) never compares the chunk sums with "
+    "gbox.shape (theorem gbt_variable_exceeds_geobox_cex); BlockAssembler accepts negative keys (two keys may name one "
+    "tile); BlockAssembler({}, chunks, axis>0) raises AssertionError.  NOT mirrored in Lean (oracle / correspondence "
+    "only, or out of scope): the `casting=` argument of extract and what np.copyto does with an explicitly narrower "
+    "`dtype=`; float fills beyond the range of a floating result become inf (numpy; theorem float32_fill_1e40_overflows_cex); "
+    "numpy-int indices (oracle only: refused or equal to the Python-int answer; as repaired by fix2-C04 tile_shape / locate "
+    "convert them); GeoBox.compute_crop branches other than a pair of slices / ints (Geometry, BoundingBox, GeoBox, "
     "step != 1 -> NotImplementedError: C02); __eq__ / __str__ / __dask_tokenize__ of Tiles, VariableSizedTiles, "
     "GeoboxTiles (C19); negative tile sizes.",
     "technique": "Lean 4 proof over hand model + exhaustive/random differential correspondence with real code",
@@ -319,7 +347,7 @@ def variable_case(R: Run, Rm, ch, axis, full=True):
     wraps = N >= 2**31
     sigx = "wrap" if wraps else ("zero-chunk" if 0 in ch else "plain")
     R.corr(f"c04 v info {L}",
-           lambda: f"{ax.pick(t.shape.yx)} {ax.pick(t.base.yx)} {ints(ax.pick(t.chunks))} {ints(t._offsets[axis].tolist())}",
+           lambda: f"{ax.pick(t.shape.yx)} {ax.pick(t.base.yx)} {ints(ax.pick(t.chunks))} {ints(offsets_of(t, axis))}",
            sig=f"v-info|{sigx}")
     if wraps:
         return
@@ -714,6 +742,29 @@ class Held:
 
 
 # ------------------------------------------------------------------ every index spelling at every indexing entry point
+def offsets_of(t, axis):
+    """cumulative int32 offsets of one axis of a VariableSizedTiles: the private array when it is there, else rebuilt
+    from the public `.chunks` (np.diff of the offsets) by an int32 cumulative sum (wraps back to the same values)"""
+    o = getattr(t, "_offsets", None)
+    if o is not None:
+        try:
+            return o[axis].tolist()
+        except Exception:  # pylint: disable=broad-except
+            pass
+    return np.asarray([0, *t.chunks[axis]], dtype="int64").astype("int32").cumsum(dtype="int32").tolist()
+
+
+def norm_roi_of(R, asm):
+    """`BlockAssembler._norm_roi` when the private helper exists; otherwise None (the stream compares `extract` only)
+    and a note goes into the evidence"""
+    fn = getattr(asm, "_norm_roi", None)
+    if fn is None and not getattr(R, "_noted_norm_roi", False):
+        R._noted_norm_roi = True
+        R.notes.append("BlockAssembler has no _norm_roi helper: the intermediate window normalisation is not compared, "
+                       "extract() for every window spelling still is")
+    return fn
+
+
 def chunks_of(kind, spec):
     if kind == "v":
         return list(spec)
@@ -960,6 +1011,24 @@ def assembler_dtypes(R: Run, BlockAssembler):
 from collections.abc import Mapping as _Mapping
 
 
+def _grace(R):
+    """how long a second thread may take for a tiny extract before it counts as blocked by the parked one"""
+    return 2.0 if not _serialised(R) else 0.05
+
+
+def _serialised(R) -> bool:
+    return getattr(R, "_extract_serialised", 0) >= 2
+
+
+def _note_serialised(R):
+    """a second extract on the same assembler did not finish while the first one was parked (twice): the calls are
+    serialised (e.g. by a lock) – nothing can interleave, which satisfies the property; results are still compared"""
+    R._extract_serialised = getattr(R, "_extract_serialised", 0) + 1
+    if R._extract_serialised == 2:
+        R.notes.append("extract() calls on one BlockAssembler are serialised (a second thread waited while the first was "
+                       "parked inside its block access): forced-interleaving stages skipped from here on, results compared")
+
+
 def _wait_parked(thread, event, limit=10.0):
     """wait until `event` is set or the thread is gone (it may have failed before reaching the parking spot)"""
     t0 = time.time()
@@ -1062,6 +1131,8 @@ def assembler_lazy_and_threads(R: Run, BlockAssembler):
                          f"({got if isinstance(got, str) else got.tolist()})", sig="asm-lazy")
         # (2) thread 1 parked at the n-th access of its first extract while thread 2 extracts
         for n in range(1, len(keys) + 1):
+            if _serialised(R):
+                break
             lazy = _LazyBlocks(blocks)
             try:
                 asm = BlockAssembler(lazy, (tuple(chy), tuple(chx)), axis=a)
@@ -1078,9 +1149,13 @@ def assembler_lazy_and_threads(R: Run, BlockAssembler):
             _wait_parked(t1, lazy.waiting)
             t2 = threading.Thread(target=worker, args=("t2", wins[1]))
             t2.start()
-            t2.join(timeout=10)
+            t2.join(timeout=_grace(R))
+            blocked = t2.is_alive() and lazy.waiting.is_set()
             lazy.release.set()
             t1.join(timeout=10)
+            t2.join(timeout=10)
+            if blocked:
+                _note_serialised(R)
             for name, win in (("t1", wins[0]), ("t2", wins[1])):
                 got = out.get(name, "ERR:no-result")
                 ok = isinstance(got, np.ndarray) and got.shape == want(win).shape and bool(np.array_equal(got, want(win)))
@@ -1160,6 +1235,8 @@ def assembler_interleaved(R: Run, BlockAssembler):
             R.oracle(False, "assembler-raises", case, repr(e))
             continue
         for n in range(1, len(keys) + 1):
+            if _serialised(R):
+                break
             ctrl = _Ctrl()
             ctrl.thread_name, ctrl.park_at = f"A-{it}-{n}", n
             _YieldingBlock.ctrl = ctrl
@@ -1171,13 +1248,20 @@ def assembler_interleaved(R: Run, BlockAssembler):
             tA = threading.Thread(target=worker, args=("A",), name=ctrl.thread_name)
             tA.start()
             _wait_parked(tA, ctrl.parked)
+            others, blocked = [], False
             for other in ("B", "C"):
                 t_ = threading.Thread(target=worker, args=(other,), name=f"{other}-{it}-{n}")
                 t_.start()
-                t_.join(timeout=10)
+                t_.join(timeout=_grace(R))
+                blocked = blocked or (t_.is_alive() and ctrl.parked.is_set())
+                others.append(t_)
             ctrl.release.set()
             tA.join(timeout=10)
+            for t_ in others:
+                t_.join(timeout=10)
             _YieldingBlock.ctrl = None
+            if blocked:
+                _note_serialised(R)
             for name, win in wins.items():
                 got = out.get(name, "ERR:no-result")
                 ok = isinstance(got, np.ndarray) and got.shape == want(win).shape and bool(np.array_equal(got, want(win)))
@@ -1440,8 +1524,11 @@ def normroi_errors(R: Run, BlockAssembler):
             L = rng.randint(0, len(shape) + 2)
             roi = tuple(rng.choice([rng.randint(-5, 5), slice(rng.choice([None, 0, 1, -1]), rng.choice([None, 1, 3, -1, 6]))]) for _ in range(L))
             rtok = "t=" + list_s([enc(v) for v in roi])
+            nr = norm_roi_of(R, asm)
+            if nr is None:
+                continue
             R.corr(f"c04 normroi {ints(shape)} {a} {rtok}",
-                   lambda: (lambda ws, sq: f"{list_s([ns(w) for w in ws])} {ints(sq)}")(*asm._norm_roi(roi)), sig=f"normroi|len{L}")
+                   lambda: (lambda ws, sq: f"{list_s([ns(w) for w in ws])} {ints(sq)}")(*nr(roi)), sig=f"normroi|len{L}")
 
 
 def window_spellings(R: Run, BlockAssembler):
@@ -1523,8 +1610,10 @@ def window_spellings(R: Run, BlockAssembler):
                     "roi": "None" if roi is None else [enc(v) for v in (roi if isinstance(roi, tuple) else (roi,))]}
             # model correspondence: `_norm_roi` itself, and extract for this spelling (default fill so that fill == N)
             rtok = "N" if roi is None else ("t=" + list_s([enc(v) for v in roi]) if isinstance(roi, tuple) else "1=" + enc(roi))
-            R.corr(f"c04 normroi {ints(shape)} {a} {rtok}",
-                   lambda: (lambda ws, sq: f"{list_s([ns(w) for w in ws])} {ints(sq)}")(*asm._norm_roi(roi)), sig=f"normroi|{form}")
+            nr = norm_roi_of(R, asm)
+            if nr is not None:
+                R.corr(f"c04 normroi {ints(shape)} {a} {rtok}",
+                       lambda: (lambda ws, sq: f"{list_s([ns(w) for w in ws])} {ints(sq)}")(*nr(roi)), sig=f"normroi|{form}")
             R.corr(f"c04 asmnd {ints(chy)} {ints(chx)} {list_s([f'{k[0]};{k[1]}' for k in keys])} {ints(lead)} {ints(trail)} {rtok} 100",
                    lambda: (lambda xx: f"{ints(xx.shape)} {canon_cells(xx)}")(asm.extract(roi=roi)), sig=f"asmnd|{form}")
             for how, fn in (("extract", lambda: asm.extract(FILL, roi=roi)), ("[]", lambda: asm[roi] if roi is not None else asm.extract())):
@@ -1611,7 +1700,7 @@ def int32_edge_stream(R: Run, Rm):
             for c in ch:
                 cum.append(cum[-1] + c)
             R.corr(f"c04 v info {L}",
-                   lambda: f"{ax.pick(t.shape.yx)} {ax.pick(t.base.yx)} {ints(ax.pick(t.chunks))} {ints(t._offsets[axis].tolist())}",
+                   lambda: f"{ax.pick(t.shape.yx)} {ax.pick(t.base.yx)} {ints(ax.pick(t.chunks))} {ints(offsets_of(t, axis))}",
                    sig="v-info|int32-edge")
             case = {"kind": "VariableSizedTiles", "chunks": list(ch), "axis": axis}
             R.oracle(guarded(lambda: str(int(ax.pick(t.base.yx)))) == str(N), "vtiles-base-ne-sum", case, "")
@@ -1693,8 +1782,15 @@ def run(R: Run):
     stream(assembler_interleaved, R, BlockAssembler)
     stream(stateful_sequences, R, Rm, GeoBox, GeoboxTiles, BlockAssembler)
     stream(index_types_stream, R, Rm, GeoBox, GeoboxTiles)
+    from .c04_npidx import npidx_stream
+
+    stream(npidx_stream, R, Rm, GeoBox, GeoboxTiles, BlockAssembler)
+    from .c04_dtype import dtype_stream
+
+    stream(dtype_stream, R, BlockAssembler)
     stream(huge_stream, R, Rm)
     stream(int32_edge_stream, R, Rm)
+    stream(args_stream, R, Rm, GeoBox, GeoboxTiles, BlockAssembler)
 
     R.searchers.append(search_harder)
     R.exhaustive = False
